@@ -702,7 +702,7 @@ func (ms *monitors) run(c tcase) (res string, ok bool) {
 type cadCase struct {
 	kind string // inf | ping
 	ttl  int    // milliseconds
-	errs string // n: none; p<k>: every k-th publish fails; b: publishes 3,4,5 fail
+	errs string // n: none; p<k>: every k-th publish fails; b: publishes 3,4,5 fail; i<k>: the informer's k-th RPC fails
 }
 
 func (c cadCase) input() string { return fmt.Sprintf("C09 cad %s %d %s", c.kind, c.ttl, c.errs) }
@@ -808,7 +808,11 @@ func runCadenceOnce(c cadCase) (late int, overloaded bool, ok bool) {
 
 func runCadence(c cadCase, out *common.Out) {
 	for attempt := 0; attempt < 3; attempt++ {
-		late, overloaded, ok := runCadenceOnce(c)
+		once := runCadenceOnce
+		if strings.HasPrefix(c.errs, "i") {
+			once = runCadenceInfErrOnce // round 8c: real disk informer, k-th RepoStat fails (cadinf.go)
+		}
+		late, overloaded, ok := once(c)
 		if ok && late == 0 {
 			out.Line("%s => pubs=%d late=0", c.input(), cadPubs)
 			return
@@ -829,7 +833,7 @@ func cadCaseN(r *common.Rng) cadCase {
 		c.kind = "ping"
 	}
 	if c.kind == "inf" {
-		c.errs = []string{"n", "n", "p2", "p3", "b", "p1"}[r.Intn(6)]
+		c.errs = []string{"n", "n", "p2", "p3", "b", "p1", "i3", "i4", "i6"}[r.Intn(9)]
 	} else {
 		c.errs = []string{"n", "p2", "p1"}[r.Intn(3)]
 	}
@@ -846,7 +850,10 @@ func parseCad(line string) (cadCase, bool) {
 		return cadCase{}, false
 	}
 	e := f[4]
-	if !(e == "n" || e == "b" || (strings.HasPrefix(e, "p") && len(e) > 1)) {
+	if strings.HasPrefix(e, "i") && (f[2] != "inf" || len(e) < 2) {
+		return cadCase{}, false
+	}
+	if !(e == "n" || e == "b" || ((strings.HasPrefix(e, "p") || strings.HasPrefix(e, "i")) && len(e) > 1)) {
 		return cadCase{}, false
 	}
 	return cadCase{kind: f[2], ttl: ttl, errs: e}, true
